@@ -25,7 +25,7 @@ var initAllow = map[string]bool{
 	"crypto/x509/pkix": true, "errors": false, "math/bits": true, "slices": true, "path": true, "path/filepath": false,
 	"bufio": true, "unicode/utf16": true, "math": true, "encoding/binary": true, "internal/byteorder": true,
 	"internal/stringslite": true, "internal/bytealg": false, "cmp": true, "iter": true, "testing/fstest": false,
-	"github.com/spf13/pflag": false, "crypto/elliptic": true, "github.com/keybase/go-crypto/brainpool": true, "crypto": true, "github.com/spf13/cobra": false,
+	"github.com/spf13/pflag": false, "internal/oserror": true, "syscall": false, "crypto/elliptic": true, "github.com/keybase/go-crypto/brainpool": true, "crypto": true, "github.com/spf13/cobra": false,
 }
 
 func (i *interpreter) intercept(fn *ssa.Function, info *fnInfo) handler {
@@ -213,6 +213,7 @@ func init() {
 		}
 		return nil
 	}
+	harnessAPI["vKeygenCount"] = func(fr *frame, args []value) value { return fr.i.ps.keygens }
 	harnessAPI["vReach"] = func(fr *frame, args []value) value {
 		fr.i.ps.reached[goString(args[0])] = true
 		return nil
